@@ -1481,6 +1481,8 @@ class Interp:
             return Opaque(f'regex.{name}')
         if kind == 'matchobj':
             if name == 'group':
+                if len(args) > 1:            # m.group(a, b, ...) is the tuple of those groups
+                    return TupleV(tuple(self.match_obj_group(recv, a, node) for a in args))
                 return self.match_obj_group(recv, args[0] if args else Const(0), node)
             if name == 'groups':
                 rx = Regex(recv.pattern, recv.flags)
